@@ -382,6 +382,9 @@ func runTCPClient(phases []phase) error {
 		}
 	}
 	life := lifecycle(rec.Snapshot())
+	if err := checkBrackets(rec.Snapshot()); err != nil {
+		return err
+	}
 	if err := checkAlternation(life, c14Reconnect); err != nil {
 		return err
 	}
@@ -518,7 +521,10 @@ func runUDPClient(phases []phase) error {
 		stalled := false
 		last := time.Now()
 		var lastAnswer time.Time
-		for time.Since(start) < 3*c14Idle+c14Reconnect*3 {
+		var maxGap time.Duration // longest time between two answers: the node can only be expected to stay if it kept hearing something
+		// the window starts with the first datagram of the node (a fresh channel after the reconnect delay); on a
+		// starved machine that can take long, and it is not what this phase is about
+		for (firstFrom.IsZero() && time.Since(start) < bound) || (!firstFrom.IsZero() && time.Since(firstFrom) < 3*c14Idle+c14Reconnect*3) {
 			pc.SetReadDeadline(time.Now().Add(c14Idle / 4)) //nolint:errcheck
 			_, addr, rerr := pc.ReadFrom(buf)
 			if time.Since(last) > c14Idle/2 || stalls.StalledBetween(last, time.Now()) {
@@ -529,6 +535,9 @@ func runUDPClient(phases []phase) error {
 				if firstFrom.IsZero() {
 					firstFrom = time.Now()
 				}
+				if !lastAnswer.IsZero() && time.Since(lastAnswer) > maxGap {
+					maxGap = time.Since(lastAnswer)
+				}
 				lastAnswer = time.Now()                                        // before the write: the node cannot have read this answer earlier
 				pc.WriteTo(tagged(1, pi, "debug", true, nil, 0).Bytes(), addr) //nolint:errcheck
 			}
@@ -537,7 +546,11 @@ func runUDPClient(phases []phase) error {
 			pc.Close()
 			return fmt.Errorf("phase %d: the UDP client sent nothing for %v (no channel open?) events:%s", pi, time.Since(start), renderLife(lifecycle(rec.Snapshot())))
 		}
-		// closes that happened after the first answered datagram + one reconnect cycle are violations
+		// closes that happened after the first answered datagram + one reconnect cycle are violations - unless the
+		// answers themselves came too far apart (the node's own datagrams, which they answer, were held up)
+		if maxGap > c14Idle/2 {
+			stalled = true
+		}
 		if !stalled {
 			for _, e := range lifecycle(rec.Snapshot()) {
 				if !e.open && e.t.After(firstFrom.Add(c14Reconnect*3)) {
@@ -575,13 +588,16 @@ func runUDPClient(phases []phase) error {
 				if !isTimeout(e.err) {
 					return fmt.Errorf("phase %d: silent peer, close event says %v (want a timeout)", pi, e.err)
 				}
-				if d := e.t.Sub(silentFrom); d < c14Idle*7/10 {
+				if d := e.t.Sub(silentFrom); d < c14Idle*7/10 && !stalled && !stalls.StalledBetweenOver(silentFrom.Add(-c14Idle), e.t, c14Idle/4) {
 					return fmt.Errorf("phase %d: closed after %v of silence, idle timeout %v", pi, d, c14Idle)
 				}
 				break
 			}
 		}
 		_ = closesBefore
+	}
+	if err := checkBrackets(rec.Snapshot()); err != nil {
+		return err
 	}
 	return checkAlternation(lifecycle(rec.Snapshot()), c14Reconnect)
 }
@@ -734,6 +750,9 @@ func runSerial(phases []phase) error {
 		}
 	}
 	life := lifecycle(rec.Snapshot())
+	if err := checkBrackets(rec.Snapshot()); err != nil {
+		return err
+	}
 	if err := checkAlternation(life, c14Reconnect); err != nil {
 		return err
 	}
